@@ -53,7 +53,7 @@ Fixpoint D (t : ty) (d : list tk) (pfx : bool) {struct t} : list tk :=
       D r (paren pfx d ++ ktok LP :: join_comma (pts ++ va_toks va) ++ [ktok RP]) false
   end.
 
-(* Parameter.format() / format_decl(name) *)
+(* format() of a function argument object / format_decl(name) *)
 Definition decl_toks (t : ty) (nm : option N) : list tk := base_toks t ++ D t (name_toks nm) false.
 Definition params_toks (ps : list (ty * option N)) (va : bool) : list tk :=
   join_comma (map (fun p => decl_toks (fst p) (snd p)) ps ++ va_toks va).
